@@ -8,9 +8,10 @@ use walkit::frame;
 use walkit::store::{build_log, BuiltLog, TxKind, KINDS};
 use walkit::{fresh_dir, DirImage, LEDGER_FILE, MANIFEST_FILE, SEGMENT_REL};
 use warp_core::causal_wal::{
-    doctor_filesystem_store, recover_filesystem_store, recover_wal_segment_bytes,
-    validate_filesystem_manifest, FilesystemWalStore, RecoveryAccessMode, RecoveryScanReport,
-    RecoveryTailPosture, WalDoctorPosture, WalSegmentId,
+    doctor_filesystem_store, project_filesystem_wal_recovery, recover_filesystem_store,
+    recover_wal_segment_bytes, validate_filesystem_manifest, FilesystemWalStore,
+    RecoveryAccessMode, RecoveryScanReport, RecoveryTailPosture, WalDoctorPosture,
+    WalRecoveryProjectionPosture, WalSegmentId, WalWriterEpoch,
 };
 
 #[derive(Clone, Debug, Default)]
@@ -161,6 +162,36 @@ pub fn relate_txs(report: &RecoveryScanReport, want: &[warp_core::causal_wal::Wa
     }
 }
 
+/// The graph-projection reader: `project_filesystem_wal_recovery` over the report that read-only
+/// recovery returned for the (damaged) directory, with the writer-epoch evidence of the intact log.
+/// A projection that is `Present` over a history that is not a prefix of what was committed is a
+/// violation (an obstructed / absent projection is the typed refusal the property asks for).
+pub fn judge_projection(st: &mut Stats, dir: &Path, rep: &RecoveryScanReport, rel: Option<&Rel>, epochs: &[WalWriterEpoch], cls: &str, case: &Value, tag: &str) {
+    match mc::catch(|| project_filesystem_wal_recovery(dir, rep, epochs, None)) {
+        Err(p) => st.viol(format!("c11:{cls}:panic:projection"), json!({"case": case, "panic": p})),
+        Ok(pr) => {
+            match pr.posture {
+                WalRecoveryProjectionPosture::Present => st.outcome(&format!("{tag}projection:Present")),
+                WalRecoveryProjectionPosture::Absent => st.outcome(&format!("{tag}projection:Absent")),
+                WalRecoveryProjectionPosture::Obstructed => {
+                    let why = pr.obstructions.first().map(|o| errkind(&format!("{o:?}"))).unwrap_or_else(|| "?".into());
+                    st.outcome(&format!("{tag}projection:Obstructed:{why}"));
+                }
+            }
+            if let (WalRecoveryProjectionPosture::Present, Some(Rel::NonPrefix(why))) = (pr.posture, rel) {
+                st.outcome(&format!("{tag}projection:Present-on-non-prefix-history"));
+                st.viol(
+                    format!("c11:{cls}:projection-present-on-non-prefix-history:projection"),
+                    json!({"case": case, "reader": "projection", "why_not_a_prefix": why, "transactions_in_report": rep.transactions.len(),
+                        "projected_segments": pr.root.as_ref().map(|r| r.segments.len())}),
+                );
+            } else if let (WalRecoveryProjectionPosture::Obstructed, Some(Rel::NonPrefix(_))) = (pr.posture, rel) {
+                st.outcome(&format!("{tag}projection:Obstructed-on-non-prefix-history"));
+            }
+        }
+    }
+}
+
 thread_local! {
     static WORK: std::cell::RefCell<Option<(std::path::PathBuf, usize)>> = const { std::cell::RefCell::new(None) };
 }
@@ -268,6 +299,9 @@ pub fn eval_image(log: &BuiltLog, li: usize, m: &M, img: &[u8], st: &mut Stats) 
         let ro_rel = judge(st, "fs-ro", ro.clone());
         if std::fs::read(&seg_path).map(|b| b != img).unwrap_or(true) {
             st.viol(format!("c11:{cls}:fs-ro:mutated-segment"), json!({"case": case}));
+        }
+        if let Ok(Ok(rep)) = &ro {
+            judge_projection(st, dir, rep, ro_rel.as_ref(), &log.writer_epochs, &cls, &case, "");
         }
         // doctor: obstruction posture, or a report consistent with read-only recovery
         match mc::catch(|| doctor_filesystem_store(dir)) {
